@@ -156,15 +156,27 @@ impl DefaultMetricSearcher {
 
         let mut offset = 0;
         let mut sec = 0;
+        let mut found = false;
 
         let mut reader = Cursor::new(index_data);
         while let Ok(sec_be) = ReadBytesExt::read_u64::<BigEndian>(&mut reader) {
+            // an entry cut short (the writer died inside it) counts as not written
+            let offset_be = match ReadBytesExt::read_u64::<BigEndian>(&mut reader) {
+                Ok(offset_be) => offset_be,
+                Err(_) => break,
+            };
             sec = sec_be;
-            let offset_be = ReadBytesExt::read_u64::<BigEndian>(&mut reader)?;
             offset = offset_be;
             if sec >= begin_sec {
+                found = true;
                 break;
             }
+        }
+        if !found {
+            // every second indexed in this file is earlier than the requested one: try the next file
+            return Err(Error::msg(
+                "no second at or after the begin time in this index file",
+            ));
         }
 
         // Cache the idx filename and position
